@@ -53,7 +53,11 @@ def scenario_install_crash_images(binary, rng, shim_so, parse_journal, apply_mut
         # the install window: from the creation of the received snapshot file to a dozen mutations behind its last write
         last_w = max(i for i, mm in enumerate(j) if mm[0] == "W" and name(mm).startswith("snapshot_"))
         window = list(range(first + 1, min(len(j), last_w + 14) + 1))
-        points = sorted(rng.sample(window, min(n_images, len(window))))
+        # the mutations of finalize_snapshot_installation (behind the last write of the received file) first, then the rest
+        tail = [p for p in window if p > last_w]
+        head = [p for p in window if p <= last_w]
+        rng.shuffle(head)
+        points = sorted((tail + head)[:n_images])
         obs["window"] = [first, last_w, len(window)]
         n2.extra_env = {}
         for pi, p in enumerate(points):
